@@ -48,4 +48,8 @@ Limit(what, rel, accepted, bufOk) ==
   /\ rel < 0 => accepted
   /\ rel > 0 => (~accepted /\ bufOk)
   /\ UNCHANGED fvars
+
+\* ... and where the line is drawn does not depend on how the bytes arrive: the same element,
+\* delivered whole and delivered in pieces, is accepted both times or refused both times
+LimitSame(what, rel, whole, pieces) == whole = pieces /\ UNCHANGED fvars
 =============================================================================
